@@ -35,11 +35,13 @@ CHECKS = {
                 "shown to be total preorders: byte-wise string order, Option with None first, lexicographic pairs) and those three facts determine the "
                 "output (any stable sort gives the same list); sorting is idempotent; the std binary_search_by loop returns the unique Equal element for "
                 "every monotone comparator (unbounded length). The four nested binary look-ups, renumber and base-26 letters are executable Gallina "
-                "mirrors tied by correspondence; binary look-up = linear scan is evaluated against the model's linear scan on every explored query.",
+                "mirrors tied by correspondence; the nested binary look-up (conformer, residue, chain, model, PDB level) is proved equal to the linear scan "
+                "for every structure whose atom serial numbers increase strictly in traversal order and that has no empty container, every serial "
+                "number and alternate location (Proofs/C11find.v); the equality is also evaluated on every explored query.",
         "design_ref": "DESIGN.md section 6 C11",
-        "note": "Trusted: Coq kernel, extraction, harness; std sort stability and binary_search_by's loop as modelled. The end-to-end theorem "
-                "'binary_find = linear_find on renumbered structures' and renumber idempotence are checked by correspondence, not yet proved.",
-        "technique": "Coq proof (stable-sort characterisation, binary-search loop invariant) + differential correspondence",
+        "note": "Trusted: Coq kernel, extraction, harness; std sort stability and binary_search_by's loop as modelled. That renumber yields strictly "
+                "increasing serial numbers and is idempotent is checked by correspondence, not proved.",
+        "technique": "Coq proof (stable-sort characterisation, binary-search loop invariant, nested binary look-up = linear scan) + differential correspondence",
     },
     "C12": {
         "text": "Theorems for every expression tree (unbounded depth) and every structure: at each of the five levels find equals the filter of the "
